@@ -40,6 +40,10 @@ SPECIES = {
     'twores': dict(rn=5, rb=[(1, 2), (2, 3), (2, 4), (4, 5)], rres=[1, 1, 2, 2, 2], tn=7,
                    tb=[(1, 2), (2, 3), (3, 4), (4, 5), (5, 6), (6, 7)], tres=[1, 1, 1, 2, 2, 2, 2]),
     'ring': dict(rn=5, rb=[(1, 2), (2, 3), (3, 4), (4, 1), (4, 5)], rres=[1] * 5, tn=2, tb=[(1, 2)], tres=[1, 1]),
+    # neighbouring residues with the same NAME (as ARG ARG in a protein; different sizes, System tells residue kinds apart by
+    # name and size): they differ only by their number
+    'samename': dict(rn=4, rb=[(1, 2), (2, 3), (3, 4)], rres=[1, 2, 2, 2], tn=6, tb=[(i, i + 1) for i in range(1, 6)],
+                     tres=[1, 1, 2, 2, 2, 2], same=True),
     'big': dict(rn=9, rb=[(i, i + 1) for i in range(1, 9)], rres=[1] * 4 + [2] * 5, tn=23,
                 tb=[(i, i + 1) for i in range(1, 23)], tres=[1] * 10 + [2] * 13),
 }
@@ -92,7 +96,7 @@ class World:
         else:
             n, bonds, res, nm = sp['tn'], sp['tb'], sp['tres'], 'TGT'
         names = ['%s%d' % ('C' if which == 'ref' else 'N', i + 1) for i in range(n)]
-        residues = [('%s%d' % ('RR' if which == 'ref' else 'TT', r), r) for r in res]
+        residues = [('%s%d' % ('RR' if which == 'ref' else 'TT', 0 if sp.get('same') else r), r) for r in res]
         pos = conf(n, k, self.seed) if which == 'ref' else conf_target(sp, k, self.seed)
         return synth.make_molecule(os.path.join(self.workdir, '%s%d_%s' % (which, self.n, tag)), nm, names, bonds, pos, residues=residues)
 
@@ -100,7 +104,8 @@ class World:
         return len(set(self.sp['rres' if which == 'ref' else 'tres']))
 
     def rid_list(self, tok, which='ref'):
-        return [100 * tok + j for j in range(self.nres(which))]
+        # every third token numbers all residues of the molecule alike (neighbouring residues may share a number)
+        return [100 * tok + (0 if tok % 3 == 0 else j) for j in range(self.nres(which))]
 
     def set_rids(self, mol, tok, which='ref'):
         """residue numbers are varied on the coordinate-file side (gro_resid), the way System hands out the
@@ -161,7 +166,7 @@ def replay(beh, workdir, seed):
     """-> None or (signature, record)"""
     from gaddlemaps import ExchangeMap
     rng = np.random.default_rng(seed)
-    spname = list(SPECIES)[int(rng.integers(0, 3))] if rng.random() < 0.9 else 'big'
+    spname = ['chain3', 'twores', 'ring', 'samename'][int(rng.integers(0, 4))] if rng.random() < 0.9 else 'big'
     scale = float(rng.choice([0.5, 1.0, 0.3, 1.7]))
     w = World(spname, workdir, seed % 1000, scale)
     w.setup(2)
